@@ -208,6 +208,9 @@ def one(ctx: Ctx, K: float, framing: str, offsets: list[tuple[float, str]], hori
 
 
 def shard(ctx: Ctx) -> None:
+    from vf.sim import device as _device
+
+    _device.AUTO_ROTATE = True   # chunking of the device's stream rotates: as written / replies coalesced / cut into 1..8-byte pieces
     rng = ctx.rng
     idx = 0
     Ks = (0.5, 1.0, 7.3, 20.0, 90.0)
@@ -230,7 +233,7 @@ def shard(ctx: Ctx) -> None:
         for framing in ("plain", "noise"):
             pats: list[tuple[str, list[tuple[float, str]], float, float | None]] = []
             pats.append(("total-silence", [], 8, None))
-            for w in (0.125, 1.0, 2.5, 4.0, 4.375):
+            for w in (0.125, 1.0625, 2.5, 4.0625, 4.375):   # (never exactly on a tick: the order of a tick and an arrival in the same instant is the loop's)
                 pats.append((f"one-message-inside-pong-window+{w}K", [((1 + w) * K, "SensorStateResponse")], 14, None))
             for gap in (4.5 - 0.125, 4.5 + 0.125):
                 offs = [(0.125 * K, "PingResponse")]
@@ -253,6 +256,10 @@ def shard(ctx: Ctx) -> None:
                 idx += 1
                 if not ctx.mine(idx):
                     continue
+                if not label.startswith("exact-coincidence"):
+                    # an arrival exactly on a tick (nK) or on a possible deadline ((n+1/2)K) is decided by the loop's ordering, not by the
+                    # library (and differs with the chunking of the stream): move such arrivals by K/32
+                    offs = [(o + K / 32 if abs(o / K * 2 - round(o / K * 2)) < 1e-9 else o, kd) for o, kd in offs]
                 if label.startswith("exact-coincidence"):
                     o = run_case(K, framing, offs, hk, None)
                     ctx.res.evaluations += 1
